@@ -17,7 +17,7 @@
 (* state space is finite, so insert sequences of UNBOUNDED length are      *)
 (* covered.                                                                *)
 (***************************************************************************)
-EXTENDS Integers, Sequences, FiniteSets, SorterContract, SorterAcct
+EXTENDS Integers, Sequences, FiniteSets, TLC, SorterContract, SorterAcct
 
 CONSTANTS
     T,                    \* effective dump threshold (bytes)
@@ -28,7 +28,8 @@ CONSTANTS
     KeysU,                \* key universe (integers), used when TrackContent
     TrackContent,         \* also model the content (bounded runs) or only the accounting
     MaxInserts,           \* bound on inserts when TrackContent (0 = unbounded)
-    ExceededUsesCapacity  \* TRUE: threshold_exceeded compares the buffer capacity (as coded)
+    ExceededUsesCapacity, \* TRUE: threshold_exceeded compares the buffer capacity (as coded)
+    GenLen                \* test generation: record the inserted sizes and print them at this length (0 = off)
 
 Cfg == [t |-> T, init |-> InitCap, realloc |-> Realloc, maxc |-> MaxChunks, bycap |-> ExceededUsesCapacity]
 
@@ -43,13 +44,14 @@ VARIABLES
     ins,               \* everything inserted                       (TrackContent)
     output,            \* the final output once finished
     phase,             \* "open" | "done"
-    allsmall           \* only small entries so far (the assumption of C08)
-svars == <<cap, elen, nb, nchunks, since, peak, creates, mem, runs, ins, output, phase, allsmall>>
+    allsmall,          \* only small entries so far (the assumption of C08)
+    sh                 \* sizes inserted so far with the accounting predicted after each (GenLen > 0 only)
+svars == <<cap, elen, nb, nchunks, since, peak, creates, mem, runs, ins, output, phase, allsmall, sh>>
 
 SInit ==
     /\ cap = AcctInit(Cfg).cap
     /\ elen = 0 /\ nb = 0 /\ nchunks = 0 /\ since = 0 /\ peak = 0 /\ creates = 0
-    /\ mem = <<>> /\ runs = <<>> /\ ins = <<>> /\ output = <<>> /\ phase = "open" /\ allsmall = TRUE
+    /\ mem = <<>> /\ runs = <<>> /\ ins = <<>> /\ output = <<>> /\ phase = "open" /\ allsmall = TRUE /\ sh = <<>>
 
 Acct == [cap |-> cap, elen |-> elen, nb |-> nb, nchunks |-> nchunks]
 
@@ -76,6 +78,7 @@ MergeRuns(rs) ==
 
 Insert(k, sz) ==
     /\ phase = "open"
+    /\ (GenLen > 0) => Len(sh) < GenLen
     /\ (TrackContent /\ MaxInserts > 0) => Len(ins) < MaxInserts
     /\ LET id == Len(ins) + 1
            e == [k |-> k, id |-> id, size |-> sz] IN
@@ -83,6 +86,7 @@ Insert(k, sz) ==
        /\ allsmall' = (allsmall /\ Small(sz, T))
        /\ LET r == AcctInsert(Cfg, Acct, sz) IN
           /\ cap' = r.a.cap /\ elen' = r.a.elen /\ nb' = r.a.nb /\ nchunks' = r.a.nchunks
+          /\ sh' = IF GenLen > 0 THEN Append(sh, <<sz, r.a.cap, r.a.elen, r.a.nb, r.a.nchunks>>) ELSE sh
           /\ peak' = r.peak
           /\ since' = IF r.spilled THEN sz ELSE since + sz
           /\ creates' = IF TrackContent THEN creates ELSE (IF r.merged THEN 2 ELSE IF r.spilled THEN 1 ELSE 0)
@@ -99,7 +103,7 @@ Finish ==
     /\ nchunks' = nchunks + 1 /\ peak' = nchunks + 1
     /\ elen' = 0 /\ nb' = 0 /\ since' = 0
     /\ output' = IF TrackContent THEN MergeRuns(Append(runs, RunOf(mem))) ELSE output
-    /\ UNCHANGED <<cap, creates, mem, runs, ins, allsmall>>
+    /\ UNCHANGED <<cap, creates, mem, runs, ins, allsmall, sh>>
 
 SNext ==
     \/ \E k \in KeysU, sz \in Sizes : Insert(k, sz)
@@ -114,4 +118,6 @@ VolumeBound == allsmall => since <= Bound(T, Realloc)
 LiveBound2 == peak <= LiveBound(MaxChunks)
 \* C07: the output is the stable group-by of the inserts
 OutputCorrect == phase = "done" => OutputOk(ins, output, TRUE, "join")
+\* test generation (tlc -simulate): one line per behaviour that reached GenLen inserts
+EmitSizes == (GenLen > 0 /\ Len(sh) = GenLen) => PrintT("SSEQ " \o ToString(sh))
 =============================================================================
